@@ -47,6 +47,7 @@ type c17inv struct {
 	fn           string
 	args         []string
 	txid         string
+	ids          []string // the transaction ids this invocation's own context reports
 }
 
 // prepare builds the proposal of one invocation (committing what must exist beforehand).
@@ -64,9 +65,16 @@ func (e *c17ex) prepare(i int, spec string) (*c17inv, bool) {
 	switch inv.kind {
 	case "nb":
 		inv.creator, inv.fn, inv.args = wd.Client.Creator, "scriptNb", e.c.Signed(u, "scriptNb", inv.script)
+		inv.ids = []string{inv.txid}
+	case "q":
+		// a query: read-only context; two identical queries in flight are still two transactions
+		inv.creator, inv.fn, inv.args = wd.Client.Creator, "poke", e.c.SignedN(wd.Users[0], "1700000000001", "poke", inv.script)
+		inv.ids = []string{inv.txid}
 	case "task":
-		data, _ := proto.Marshal(&fpb.ExecuteTasksRequest{Tasks: []*fpb.Task{{Id: simpeer.NewTxID(), Method: "script", Args: e.c.Signed(u, "script", inv.script)}}})
+		tid := simpeer.NewTxID()
+		data, _ := proto.Marshal(&fpb.ExecuteTasksRequest{Tasks: []*fpb.Task{{Id: tid, Method: "script", Args: e.c.Signed(u, "script", inv.script)}}})
 		inv.creator, inv.fn, inv.args = wd.Client.Creator, "executeTasks", []string{string(data)}
+		inv.ids = []string{inv.txid, tid}
 	case "batch":
 		id, r := e.c.Submit("script", e.c.Signed(u, "script", inv.script))
 		if !r.OK() {
@@ -75,6 +83,7 @@ func (e *c17ex) prepare(i int, spec string) (*c17inv, bool) {
 		idb, _ := hex.DecodeString(id)
 		data, _ := proto.Marshal(&fpb.Batch{TxIDs: [][]byte{idb}})
 		inv.creator, inv.fn, inv.args = wd.Robot.Creator, "batchExecute", []string{string(data)}
+		inv.ids = []string{inv.txid, id}
 	case "done":
 		inv.creator, inv.fn, inv.args = wd.Client.Creator, "swapDone", []string{"00ff" + strconv.Itoa(i), "nokey"}
 	default:
@@ -102,7 +111,7 @@ func observe(inv *c17inv, r *simpeer.Result) string {
 	}
 	result := ""
 	switch inv.kind {
-	case "nb":
+	case "nb", "q":
 		result = string(r.Resp.Payload)
 	default:
 		if r.Stub.Event != nil {
@@ -123,7 +132,16 @@ func observe(inv *c17inv, r *simpeer.Result) string {
 	if rs != "" {
 		for _, h := range strings.Split(rs, "|") {
 			b, _ := hex.DecodeString(h)
-			reads = append(reads, "["+string(b)+"]")
+			v := string(b)
+			if len(v) == 32 && isHex(v) { // a transaction id: mine or somebody else's
+				v = "OTHER"
+				for _, own := range inv.ids {
+					if own == string(b) {
+						v = "SELF"
+					}
+				}
+			}
+			reads = append(reads, "["+v+"]")
 		}
 	}
 	var ws []string
@@ -134,6 +152,11 @@ func observe(inv *c17inv, r *simpeer.Result) string {
 	}
 	sort.Strings(ws)
 	return "reads=" + strings.Join(reads, ",") + ";w=" + strings.Join(ws, ",")
+}
+
+func isHex(s string) bool {
+	_, err := hex.DecodeString(s)
+	return err == nil
 }
 
 func (e *c17ex) Exec(op string) string {
@@ -235,7 +258,7 @@ func (e *c17ex) Exec(op string) string {
 					if j == i {
 						return true
 					}
-				case <-time.After(10 * time.Second):
+				case <-time.After(3 * time.Second):
 					return false
 				}
 			}
@@ -283,7 +306,7 @@ func (e *c17ex) Exec(op string) string {
 		}
 		e.c.Token.Hook = nil
 		if hung {
-			e.flag("no_reply", "an invocation neither reached its next switch point nor finished within 10 s under schedule "+w[1])
+			e.flag("no_reply", "an invocation neither reached its next switch point nor finished within 3 s under schedule "+w[1])
 			return "hung"
 		}
 		var outs []string
@@ -299,8 +322,8 @@ func (e *c17ex) Exec(op string) string {
 }
 
 func genC17(c *Cfg, emit func([]string)) {
-	scripts2 := []string{"put:k1:a+get:k1", "get:k1+put:k1:b", "put:k2:c+put:k1:d", "get:k2+get:k1", "put:k1:e+evt:n:v"}
-	kinds := []string{"nb", "batch", "task"}
+	scripts2 := []string{"put:k1:a+get:k1", "get:k1+put:k1:b", "put:k2:c+id", "id+get:k1", "put:k1:e+evt:n:v"}
+	kinds := []string{"nb", "batch", "task", "q"}
 	// all interleavings of the hook points of the given step counts
 	var interleave func(counts []int) []string
 	interleave = func(counts []int) []string {
@@ -350,6 +373,12 @@ func genC17(c *Cfg, emit func([]string)) {
 			}
 		}
 	}
+	// (a') two byte-identical queries in flight: each must answer from its own transaction
+	for _, sc := range []string{"id+get:k1", "get:k1+id", "id+id"} {
+		for _, sch := range interleave([]int{2, 2}) {
+			add(fmt.Sprintf("conc %s q=%s q=%s", sch, sc, sc))
+		}
+	}
 	// (b) with a swap completion (installs and removes its context without switch points) in between
 	for _, ka := range kinds {
 		for _, sch := range []string{"0", "01", "010", "100", "001"} {
@@ -367,7 +396,7 @@ func genC17(c *Cfg, emit func([]string)) {
 		if c.Thorough() {
 			sch = all3[i%len(all3)]
 		}
-		ks := []string{kinds[c.Rng.Intn(3)], kinds[c.Rng.Intn(3)], kinds[c.Rng.Intn(3)]}
+		ks := []string{kinds[c.Rng.Intn(4)], kinds[c.Rng.Intn(4)], kinds[c.Rng.Intn(4)]}
 		add(fmt.Sprintf("conc %s %s=%s %s=%s %s=%s", sch, ks[0], scripts2[c.Rng.Intn(5)], ks[1], scripts2[c.Rng.Intn(5)], ks[2], scripts2[c.Rng.Intn(5)]))
 	}
 	// (d) longer bodies
@@ -378,7 +407,7 @@ func genC17(c *Cfg, emit func([]string)) {
 	}
 	all44 := interleave([]int{4, 4})
 	for i := 0; i < nl; i++ {
-		add(fmt.Sprintf("conc %s %s=%s %s=%s", all44[c.Rng.Intn(len(all44))], kinds[c.Rng.Intn(3)], long[0], kinds[c.Rng.Intn(3)], long[1]))
+		add(fmt.Sprintf("conc %s %s=%s %s=%s", all44[c.Rng.Intn(len(all44))], kinds[c.Rng.Intn(4)], long[0], kinds[c.Rng.Intn(4)], long[1]))
 	}
 	if len(h) > 3 {
 		emit(h)
@@ -403,6 +432,6 @@ func genC17(c *Cfg, emit func([]string)) {
 		}
 	}
 	c.Exhaustive = true
-	c.Rule = fmt.Sprintf("%d concurrent runs on one chaincode instance: (a) two invocations, every pair of kinds {immediate method, batchExecute, executeTasks} x scripted bodies of two stub operations each, ALL %d interleavings of their switch points (one immediately before every GetStub()); (b) a swap completion running in between; (c) three invocations under schedules of 2+2+2 switch points (%s); (d) bodies of four operations under sampled schedules; (e) every pair of kinds under all schedules again on an aged process (goroutine ids beyond 10^6, thorough 10^7). Each invocation runs on its own goroutine with its own simulated transaction; reply, write-set and event are compared with the same invocation run alone. non-trivial = every concurrent run; distinct = sha256", count, len(interleave([]int{2, 2})), map[bool]string{true: "all 90, six kind/body assignments each", false: "60 sampled"}[c.Thorough()])
+	c.Rule = fmt.Sprintf("%d concurrent runs on one chaincode instance: (a) two invocations, every pair of kinds {immediate method, batchExecute, executeTasks, query} x scripted bodies of two operations each (state put/get, event, or reporting the context's transaction id), ALL %d interleavings of their switch points (one immediately before every GetStub()); (b) a swap completion running in between; (c) three invocations under schedules of 2+2+2 switch points (%s); (d) bodies of four operations under sampled schedules; (e) every pair of kinds under all schedules again on an aged process (goroutine ids beyond 10^6, thorough 10^7). Each invocation runs on its own goroutine with its own simulated transaction; reply, write-set and event are compared with the same invocation run alone. non-trivial = every concurrent run; distinct = sha256", count, len(interleave([]int{2, 2})), map[bool]string{true: "all 90, six kind/body assignments each", false: "60 sampled"}[c.Thorough()])
 	c.Extra = map[string]any{"concurrent_runs": count}
 }
